@@ -95,6 +95,7 @@ struct SimOS
 	// initial-memory differential: what fresh heap blocks and the unused stack hold when a library call starts (-1 = leave alone).
 	// Results must not depend on it; two executions of one plan with different values expose reads of uninitialised memory.
 	int mem_fill = -1 ;
+	int bind_fd (int fd, SimFileP f, int flags) ;	// a given descriptor number (0 or 1: the process was started with a redirection)
 	bool fd_zero = false ;			// plan option: descriptor number 0 is free (stdin closed) and is handed out first
 	// clock
 	int64_t epoch0 = 1700000000 ;
